@@ -7,6 +7,16 @@ use super::*;
 use crate::coroutine_impl::vk_support as sup;
 use crate::sync::blocking::vk_blk as env;
 
+/// the body of `Semphore::post` for callers that stub `post` in order to observe it (verbatim copy; the real
+/// function is under contract in C10.1a / C10.3a)
+pub(crate) fn real_post(s: &Semphore) {
+    let cnt = s.cnt.fetch_add(1, Ordering::SeqCst);
+    assert!(cnt < isize::MAX);
+    if cnt < 0 {
+        s.wakeup_one();
+    }
+}
+
 static mut POSTS: usize = 0;
 fn post_count_stub(_s: &Semphore) {
     unsafe { POSTS += 1 };
